@@ -181,10 +181,21 @@ def build_cabextract():
 
 ASAN_ENV = dict(os.environ, ASAN_OPTIONS="detect_leaks=0:abort_on_error=0:exitcode=86:allocator_may_return_null=1", UBSAN_OPTIONS="print_stacktrace=1:halt_on_error=1:exitcode=87", MSAN_OPTIONS="exitcode=88")
 
+def _big_stack():
+    """the extracted model recurses (non-tail) over lists as long as its inputs: give the driver a deep stack"""
+    import resource
+    try:
+        soft, hard = resource.getrlimit(resource.RLIMIT_STACK)
+        want = 4 << 30
+        resource.setrlimit(resource.RLIMIT_STACK, (want if hard == resource.RLIM_INFINITY else min(want, hard), hard))
+    except Exception:
+        pass
+
 def _run_lines1(exe, args, lines, timeout):
     inp = ("\n".join(lines) + "\n").encode()
     try:
-        p = subprocess.run([exe] + args, input=inp, capture_output=True, timeout=timeout, env=ASAN_ENV)
+        p = subprocess.run([exe] + args, input=inp, capture_output=True, timeout=timeout, env=ASAN_ENV,
+                           preexec_fn=_big_stack if os.path.basename(exe) == "model_drv" else None)
         return p.returncode, p.stdout.decode("utf-8", "replace").split("\n")[:-1], p.stderr.decode("utf-8", "replace")
     except subprocess.TimeoutExpired as e:
         return 124, (e.stdout or b"").decode("utf-8", "replace").split("\n"), "[timeout]"
